@@ -91,6 +91,47 @@ func gen(rng *rand.Rand, tier core.Tier, emit core.Emit) {
 			}
 		}
 	}
+	// (b0) every interleaving of the first four repository calls of a probe with the first four of one concurrent
+	// use case (70 merges of 4 + 4; what is left runs round-robin), for each kind of concurrent use case and outcome:
+	// in particular the concurrent update READS before the outcome commits and WRITES after it (its conflict callback runs)
+	var merges [][]string
+	var rec func(a, b int, cur []string)
+	rec = func(a, b int, cur []string) {
+		if a == 0 && b == 0 {
+			merges = append(merges, append([]string{}, cur...))
+			return
+		}
+		if a > 0 {
+			rec(a-1, b, append(cur, "c0"))
+		}
+		if b > 0 {
+			rec(a, b-1, append(cur, "c1"))
+		}
+	}
+	rec(4, 4, nil)
+	base := []string{fmt.Sprintf("report|%s|10481|00000001|%s|3", addrA, hexs("first")), fmt.Sprintf("probe|%s|10481|1|0|2|ok:10481:%s:4", addrA, hexs("probed"))}
+	for _, other := range []string{
+		fmt.Sprintf("report|%s|10481|00000001|%s|9", addrA, hexs("again")),
+		"renew|00000001|1.1.1.1",
+		fmt.Sprintf("probe|%s|10481|0|1|2|fail", addrA),
+		fmt.Sprintf("remove|00000001|%s", addrA),
+	} {
+		for goal := 0; goal < 2; goal++ {
+			for _, oc := range []string{"ok:10483:" + hexs("new") + ":6", "fail|0|2", "fail|2|2"} {
+				outcome, retries, maxr := oc, "0", "2"
+				if parts := strings.Split(oc, "|"); len(parts) == 3 {
+					outcome, retries, maxr = parts[0], parts[1], parts[2]
+				}
+				probe := fmt.Sprintf("probe|%s|10481|%d|%s|%s|%s", addrA, goal, retries, maxr, outcome)
+				for i, m := range merges {
+					if tier != core.Thorough && (i+goal)%2 == 1 && !strings.HasPrefix(other, "renew") {
+						continue // quick tier: half of the merges (all of them for the keepalive)
+					}
+					emit("uc", strings.Join(base, ","), probe+","+other, strings.Join(m, ","))
+				}
+			}
+		}
+	}
 	// (b) interleavings
 	n := 120
 	if tier == core.Thorough {
